@@ -154,6 +154,29 @@ pub struct JpegSpec {
     pub exif_app1: Option<Vec<u8>>,
     /// Comment segment.
     pub comment: Option<Vec<u8>>,
+    /// Progressive JPEG (SOF2): every scan has its `(ss, se, ah, al)` in `scan_params`, a scan is
+    /// either DC only (`ss = se = 0`, any components) or AC only (`ss > 0`, one component).
+    pub progressive: bool,
+    /// `(ss, se, ah, al)` per scan; empty: `(0, 63, 0, 0)` for every scan.
+    pub scan_params: Vec<(u8, u8, u8, u8)>,
+    /// Restart interval in MCUs (0: no DRI segment).
+    pub restart_interval: u16,
+    /// `[DC0, DC1, AC0, AC1]`; `None`: the tables of Annex K. Component 0 uses tables 0, the others 1.
+    pub tables: Option<[HuffSpec; 4]>,
+    /// One DHT segment per table instead of one for all.
+    pub dht_split: bool,
+    /// Per scan: block indices before which the original encoder ended a running end-of-band run
+    /// although it did not have to (progressive AC scans).
+    pub forced_resets: Vec<Vec<u32>>,
+}
+
+/// What `write_jpeg_ex` produced.
+pub struct JpegOut {
+    pub bytes: Vec<u8>,
+    /// per padding event, how many bits were needed
+    pub pad_needs: Vec<u32>,
+    /// per scan, the block indices before which an end-of-band run was ended early
+    pub reset_points: Vec<Vec<u32>>,
 }
 
 impl JpegSpec {
@@ -163,6 +186,85 @@ impl JpegSpec {
     pub fn blocks_h(&self) -> usize {
         self.height / 8
     }
+    pub fn scan_param(&self, scan: usize) -> (u8, u8, u8, u8) {
+        self.scan_params.get(scan).copied().unwrap_or((0, 63, 0, 0))
+    }
+    pub fn huff_tables(&self) -> [HuffSpec; 4] {
+        self.tables.clone().unwrap_or_else(std_tables)
+    }
+}
+
+/// A seeded Huffman table holding every symbol of `symbols` (first ones get the short codes), with
+/// one of a few code-length shapes; the all-ones code of the longest length stays unused.
+pub fn custom_table(seed: u64, is_ac: bool, id: u8, symbols: &[u8]) -> HuffSpec {
+    let n = symbols.len();
+    assert!(n >= 2 && n <= 256);
+    // (length, how many) shapes with Kraft sum < 1; the last length takes what is left
+    let shapes: [&[(u8, usize)]; 5] = [
+        &[(8, 128), (9, 256)],
+        &[(7, 64), (9, 256)],
+        &[(2, 2), (7, 30), (10, 256)],
+        &[(1, 1), (6, 15), (10, 256)],
+        &[(3, 3), (5, 7), (8, 40), (12, 256)],
+    ];
+    let shape = shapes[(seed % shapes.len() as u64) as usize];
+    let mut counts = [0u8; 16];
+    let mut left = n;
+    for &(len, k) in shape {
+        let k = k.min(left);
+        // a count is one byte: spill over to the next length if needed
+        let mut k_here = k;
+        let mut len_here = len as usize;
+        while k_here > 0 {
+            let take = k_here.min(255 - counts[len_here - 1] as usize);
+            counts[len_here - 1] += take as u8;
+            k_here -= take;
+            if k_here > 0 {
+                len_here += 1;
+            }
+        }
+        left -= k;
+        if left == 0 {
+            break;
+        }
+    }
+    assert_eq!(left, 0);
+    // Kraft check incl. the reserved all-ones code
+    let mut kraft = 0u64;
+    for (i, &c) in counts.iter().enumerate() {
+        kraft += (c as u64) << (16 - (i + 1));
+    }
+    assert!(kraft < 1 << 16, "table shape is over-subscribed");
+    // seeded order of the tail, the head stays as given
+    let mut values = symbols.to_vec();
+    let mut s = seed.wrapping_mul(0x9e3779b97f4a7c15) | 1;
+    let keep = (n / 4).max(1);
+    for i in (keep + 1..n).rev() {
+        s ^= s << 13;
+        s ^= s >> 7;
+        s ^= s << 17;
+        let j = keep + (s % (i - keep + 1) as u64) as usize;
+        values.swap(i, j);
+    }
+    HuffSpec { is_ac, id, counts, values }
+}
+
+/// `[DC0, DC1, AC0, AC1]` holding every symbol a progressive or sequential scan can need.
+pub fn custom_tables(seed: u64) -> [HuffSpec; 4] {
+    let dc: Vec<u8> = (0..16).collect();
+    // frequent AC symbols first: EOB, small run/size pairs, ZRL, end-of-band runs; then the rest
+    let mut ac: Vec<u8> = vec![0x00, 0x01, 0x11, 0x02, 0x21, 0x31, 0xf0, 0x10, 0x20, 0x12, 0x03, 0x41, 0x30, 0x40];
+    for v in 0..=255u8 {
+        if !ac.contains(&v) {
+            ac.push(v);
+        }
+    }
+    [
+        custom_table(seed, false, 0, &dc),
+        custom_table(seed / 5 + 1, false, 1, &dc),
+        custom_table(seed / 7 + 2, true, 0, &ac),
+        custom_table(seed / 11 + 3, true, 1, &ac),
+    ]
 }
 
 struct JpegBits {
@@ -217,7 +319,47 @@ const JFIF_PAYLOAD: [u8; 14] = [b'J', b'F', b'I', b'F', 0, 1, 1, 0, 0, 1, 0, 1, 
 
 /// Writes the JPEG file. Also returns, per padding event, how many bits were needed.
 pub fn write_jpeg(spec: &JpegSpec) -> (Vec<u8>, Vec<u32>) {
-    let tables = std_tables();
+    let out = write_jpeg_ex(spec);
+    (out.bytes, out.pad_needs)
+}
+
+/// Entropy coder state of one scan, after `jcphuff.c` of the IJG library (the encoder whose
+/// output a reconstruction box is designed to describe).
+struct ScanEnc<'a> {
+    bw: JpegBits,
+    ac_codes: &'a [Option<(u16, u8)>],
+    /// pending end-of-band run
+    eobrun: u32,
+    /// correction bits that belong to the pending run
+    be: Vec<u8>,
+}
+
+impl ScanEnc<'_> {
+    fn sym(&mut self, sym: usize) {
+        let (code, len) = self.ac_codes[sym].expect("AC symbol not in table");
+        self.bw.bits(code as u32, len);
+    }
+    fn emit_eobrun(&mut self) {
+        if self.eobrun == 0 {
+            return;
+        }
+        let nbits = 31 - self.eobrun.leading_zeros();
+        self.sym((nbits as usize) << 4);
+        if nbits > 0 {
+            self.bw.bits(self.eobrun & ((1 << nbits) - 1), nbits as u8);
+        }
+        self.eobrun = 0;
+        for b in std::mem::take(&mut self.be) {
+            self.bw.bit(b as u32);
+        }
+    }
+}
+
+/// IJG's limit on buffered correction bits (`MAX_CORR_BITS - DCTSIZE2 + 1`).
+const MAX_BE: usize = 1000 - 64 + 1;
+
+pub fn write_jpeg_ex(spec: &JpegSpec) -> JpegOut {
+    let tables = spec.huff_tables();
     let codes: Vec<_> = tables.iter().map(|t| t.codes()).collect();
     let mut out = vec![0xff, 0xd8];
 
@@ -249,8 +391,8 @@ pub fn write_jpeg(spec: &JpegSpec) -> (Vec<u8>, Vec<u32>) {
         }
     }
 
-    // SOF0
-    out.extend_from_slice(&[0xff, 0xc0]);
+    // SOF0 / SOF2
+    out.extend_from_slice(&[0xff, if spec.progressive { 0xc2 } else { 0xc0 }]);
     out.extend_from_slice(&((8 + 3 * 3) as u16).to_be_bytes());
     out.push(8);
     out.extend_from_slice(&(spec.height as u16).to_be_bytes());
@@ -260,20 +402,42 @@ pub fn write_jpeg(spec: &JpegSpec) -> (Vec<u8>, Vec<u32>) {
         out.extend_from_slice(&[i + 1, 0x11, i]);
     }
 
-    // DHT, four tables in one segment
-    out.extend_from_slice(&[0xff, 0xc4]);
-    let len: usize = 2 + tables.iter().map(|t| 17 + t.values.len()).sum::<usize>();
-    out.extend_from_slice(&(len as u16).to_be_bytes());
-    for t in &tables {
-        out.push(t.id | if t.is_ac { 0x10 } else { 0 });
-        out.extend_from_slice(&t.counts);
-        out.extend_from_slice(&t.values);
+    // DHT: four tables in one segment, or one segment each
+    let groups: Vec<&[HuffSpec]> = if spec.dht_split {
+        tables.chunks(1).collect()
+    } else {
+        vec![&tables[..]]
+    };
+    for g in groups {
+        out.extend_from_slice(&[0xff, 0xc4]);
+        let len: usize = 2 + g.iter().map(|t| 17 + t.values.len()).sum::<usize>();
+        out.extend_from_slice(&(len as u16).to_be_bytes());
+        for t in g {
+            out.push(t.id | if t.is_ac { 0x10 } else { 0 });
+            out.extend_from_slice(&t.counts);
+            out.extend_from_slice(&t.values);
+        }
+    }
+
+    // DRI
+    if spec.restart_interval != 0 {
+        out.extend_from_slice(&[0xff, 0xdd, 0, 4]);
+        out.extend_from_slice(&spec.restart_interval.to_be_bytes());
     }
 
     let mut pad_iter = spec.padding.as_ref().map(|p| p.iter().copied());
     let mut pad_needs = Vec::new();
+    let mut reset_points = Vec::new();
+    let nblocks = spec.blocks_w() * spec.blocks_h();
 
     for (scan_idx, comps) in spec.scans.iter().enumerate() {
+        let (ss, se, ah, al) = spec.scan_param(scan_idx);
+        if spec.progressive {
+            assert!(ss <= se && se <= 63);
+            assert!(if ss == 0 { se == 0 } else { comps.len() == 1 }, "progressive scans are DC only or AC of one component");
+        } else {
+            assert!((ss, se, ah, al) == (0, 63, 0, 0));
+        }
         out.extend_from_slice(&[0xff, 0xda]);
         out.extend_from_slice(&((6 + 2 * comps.len()) as u16).to_be_bytes());
         out.push(comps.len() as u8);
@@ -281,77 +445,213 @@ pub fn write_jpeg(spec: &JpegSpec) -> (Vec<u8>, Vec<u32>) {
             let tbl = if c == 0 { 0u8 } else { 1 };
             out.extend_from_slice(&[c as u8 + 1, (tbl << 4) | tbl]);
         }
-        out.extend_from_slice(&[0, 63, 0]);
+        out.extend_from_slice(&[ss, se, (ah << 4) | al]);
 
-        let ezr = &spec.extra_zero_runs[scan_idx];
-        let mut bw = JpegBits::new();
+        let empty = Vec::new();
+        let ezr = spec.extra_zero_runs.get(scan_idx).unwrap_or(&empty);
+        let no_forced = Vec::new();
+        let forced = spec.forced_resets.get(scan_idx).unwrap_or(&no_forced);
+        let mut resets: Vec<u32> = Vec::new();
+        let ac_tbl_of_scan = if comps[0] == 0 { 0 } else { 1 };
+        let mut st = ScanEnc {
+            bw: JpegBits::new(),
+            ac_codes: &codes[2 + ac_tbl_of_scan],
+            eobrun: 0,
+            be: Vec::new(),
+        };
         let mut pred = [0i32; 3];
         let mut block_idx = 0u32;
-        for b in 0..spec.blocks_w() * spec.blocks_h() {
+        let mut rst = 0u8;
+        // 4:4:4: an MCU is one block of every component of the scan
+        for b in 0..nblocks {
+            if spec.restart_interval != 0 && b != 0 && b % spec.restart_interval as usize == 0 {
+                st.emit_eobrun();
+                let need = (8 - st.bw.n) % 8;
+                pad_needs.push(need);
+                for _ in 0..need {
+                    let bit = match &mut pad_iter {
+                        Some(it) => it.next().expect("not enough padding bits in the spec") as u32,
+                        None => 1,
+                    };
+                    st.bw.bit(bit);
+                }
+                out.extend_from_slice(&st.bw.out);
+                st.bw = JpegBits::new();
+                out.extend_from_slice(&[0xff, 0xd0 + rst]);
+                rst = (rst + 1) % 8;
+                pred = [0; 3];
+            }
             for &c in comps {
                 let tbl = if c == 0 { 0 } else { 1 };
                 let dc_codes = &codes[tbl];
-                let ac_codes = &codes[2 + tbl];
+                st.ac_codes = &codes[2 + tbl];
                 let block = &spec.blocks[c][b];
-
-                let diff = block[0] as i32 - pred[c];
-                pred[c] = block[0] as i32;
-                let (size, bits) = magnitude(diff);
-                let (code, len) = dc_codes[size as usize].expect("DC category not in table");
-                bw.bits(code as u32, len);
-                bw.bits(bits, size);
-
-                let last_nz = (1..64).rev().find(|&k| block[k] != 0).unwrap_or(0);
-                let mut run = 0u32;
-                for &coeff in &block[1..=last_nz] {
-                    if coeff == 0 {
-                        run += 1;
-                        continue;
-                    }
-                    while run >= 16 {
-                        let (code, len) = ac_codes[0xf0].unwrap();
-                        bw.bits(code as u32, len);
-                        run -= 16;
-                    }
-                    let (size, bits) = magnitude(coeff as i32);
-                    let sym = ((run as usize) << 4) | size as usize;
-                    let (code, len) = ac_codes[sym].expect("AC symbol not in table");
-                    bw.bits(code as u32, len);
-                    bw.bits(bits, size);
-                    run = 0;
+                let zr = ezr.iter().find(|&&(idx, _)| idx == block_idx).map(|&(_, n)| n);
+                if forced.contains(&block_idx) {
+                    // an encoder that ends its run here for reasons of its own
+                    st.emit_eobrun();
+                    resets.push(block_idx);
                 }
-                let mut trailing = 63 - last_nz as i32;
-                if let Some(&(_, n)) = ezr.iter().find(|&&(idx, _)| idx == block_idx) {
-                    // The original encoder spelled part of the trailing zeros as ZRL symbols.
-                    assert!(16 * n as i32 <= trailing);
-                    let (code, len) = ac_codes[0xf0].unwrap();
-                    for _ in 0..n {
-                        bw.bits(code as u32, len);
+
+                if !spec.progressive {
+                    let diff = block[0] as i32 - pred[c];
+                    pred[c] = block[0] as i32;
+                    let (size, bits) = magnitude(diff);
+                    let (code, len) = dc_codes[size as usize].expect("DC category not in table");
+                    st.bw.bits(code as u32, len);
+                    st.bw.bits(bits, size);
+
+                    let last_nz = (1..64).rev().find(|&k| block[k] != 0).unwrap_or(0);
+                    let mut run = 0u32;
+                    for &coeff in &block[1..=last_nz] {
+                        if coeff == 0 {
+                            run += 1;
+                            continue;
+                        }
+                        while run >= 16 {
+                            st.sym(0xf0);
+                            run -= 16;
+                        }
+                        let (size, bits) = magnitude(coeff as i32);
+                        st.sym(((run as usize) << 4) | size as usize);
+                        st.bw.bits(bits, size);
+                        run = 0;
                     }
-                    trailing -= 16 * n as i32;
-                }
-                if trailing > 0 {
-                    let (code, len) = ac_codes[0x00].unwrap();
-                    bw.bits(code as u32, len);
+                    let mut trailing = 63 - last_nz as i32;
+                    if let Some(n) = zr {
+                        // The original encoder spelled part of the trailing zeros as ZRL symbols.
+                        assert!(16 * n as i32 <= trailing);
+                        for _ in 0..n {
+                            st.sym(0xf0);
+                        }
+                        trailing -= 16 * n as i32;
+                    }
+                    if trailing > 0 {
+                        st.sym(0x00);
+                    }
+                } else if ss == 0 {
+                    if ah == 0 {
+                        // DC, first pass: point transform by arithmetic shift
+                        let v = (block[0] as i32) >> al;
+                        let diff = v - pred[c];
+                        pred[c] = v;
+                        let (size, bits) = magnitude(diff);
+                        let (code, len) = dc_codes[size as usize].expect("DC category not in table");
+                        st.bw.bits(code as u32, len);
+                        st.bw.bits(bits, size);
+                    } else {
+                        st.bw.bit(((block[0] as i32) >> al) as u32 & 1);
+                    }
+                } else if ah == 0 {
+                    // AC, first pass (encode_mcu_AC_first)
+                    let mut r = 0i32;
+                    for k in ss as usize..=se as usize {
+                        let v = block[k] as i32;
+                        let temp = v.abs() >> al;
+                        if temp == 0 {
+                            r += 1;
+                            continue;
+                        }
+                        st.emit_eobrun();
+                        while r > 15 {
+                            st.sym(0xf0);
+                            r -= 16;
+                        }
+                        let nbits = 32 - (temp as u32).leading_zeros();
+                        let temp2 = if v < 0 { !temp } else { temp };
+                        st.sym(((r as usize) << 4) | nbits as usize);
+                        st.bw.bits(temp2 as u32 & ((1 << nbits) - 1), nbits as u8);
+                        r = 0;
+                    }
+                    if let Some(n) = zr {
+                        assert!(16 * n as i32 <= r);
+                        st.emit_eobrun();
+                        for _ in 0..n {
+                            st.sym(0xf0);
+                        }
+                        r -= 16 * n as i32;
+                    }
+                    if r > 0 {
+                        st.eobrun += 1;
+                        if st.eobrun == 0x7fff {
+                            st.emit_eobrun();
+                        }
+                    }
+                } else {
+                    // AC, refinement (encode_mcu_AC_refine)
+                    assert!(zr.is_none(), "extra zero runs are not synthesised for refinement scans");
+                    let mut absv = [0i32; 64];
+                    let mut eob = 0usize;
+                    for k in ss as usize..=se as usize {
+                        absv[k] = (block[k] as i32).abs() >> al;
+                        if absv[k] == 1 {
+                            eob = k;
+                        }
+                    }
+                    let mut r = 0i32;
+                    let mut br: Vec<u8> = Vec::new();
+                    for k in ss as usize..=se as usize {
+                        let temp = absv[k];
+                        if temp == 0 {
+                            r += 1;
+                            continue;
+                        }
+                        while r > 15 && k <= eob {
+                            st.emit_eobrun();
+                            st.sym(0xf0);
+                            r -= 16;
+                            for b in br.drain(..) {
+                                st.bw.bit(b as u32);
+                            }
+                        }
+                        if temp > 1 {
+                            br.push((temp & 1) as u8);
+                            continue;
+                        }
+                        st.emit_eobrun();
+                        st.sym(((r as usize) << 4) | 1);
+                        st.bw.bit(if block[k] < 0 { 0 } else { 1 });
+                        for b in br.drain(..) {
+                            st.bw.bit(b as u32);
+                        }
+                        r = 0;
+                    }
+                    if r > 0 || !br.is_empty() {
+                        st.eobrun += 1;
+                        st.be.extend_from_slice(&br);
+                        if st.eobrun == 0x7fff || st.be.len() > MAX_BE {
+                            let by_count = st.eobrun == 0x7fff;
+                            st.emit_eobrun();
+                            if !by_count {
+                                // the run ended because of the correction-bit buffer: nothing in
+                                // the coefficients says so, the box has to
+                                resets.push(block_idx + 1);
+                            }
+                        }
+                    }
                 }
                 block_idx += 1;
             }
         }
-        // pad to a byte boundary
-        let need = (8 - bw.n) % 8;
+        // end of scan: finish the run, pad to a byte boundary
+        st.emit_eobrun();
+        let need = (8 - st.bw.n) % 8;
         pad_needs.push(need);
         for _ in 0..need {
             let bit = match &mut pad_iter {
                 Some(it) => it.next().expect("not enough padding bits in the spec") as u32,
                 None => 1,
             };
-            bw.bit(bit);
+            st.bw.bit(bit);
         }
-        out.extend_from_slice(&bw.out);
+        out.extend_from_slice(&st.bw.out);
+        resets.sort();
+        resets.dedup();
+        reset_points.push(resets);
     }
 
     out.extend_from_slice(&[0xff, 0xd9]);
-    (out, pad_needs)
+    JpegOut { bytes: out, pad_needs, reset_points }
 }
 
 // ---------------------------------------------------------------------------------------------
@@ -681,7 +981,8 @@ pub fn brotli_store(data: &[u8]) -> Vec<u8> {
 
 /// Builds the contents of the `jbrd` box for `spec`.
 pub fn write_jbrd(spec: &JpegSpec) -> Vec<u8> {
-    let tables = std_tables();
+    let tables = spec.huff_tables();
+    let jpeg = write_jpeg_ex(spec);
     let mut w = BitW::default();
     w.put(0, 1); // is_gray
 
@@ -695,7 +996,13 @@ pub fn write_jbrd(spec: &JpegSpec) -> Vec<u8> {
     if spec.comment.is_some() {
         markers.push(0xfe);
     }
-    markers.extend_from_slice(&[0xdb, 0xc0, 0xc4]);
+    markers.extend_from_slice(&[0xdb, if spec.progressive { 0xc2 } else { 0xc0 }]);
+    for _ in 0..if spec.dht_split { tables.len() } else { 1 } {
+        markers.push(0xc4);
+    }
+    if spec.restart_interval != 0 {
+        markers.push(0xdd);
+    }
     for _ in &spec.scans {
         markers.push(0xda);
     }
@@ -740,7 +1047,7 @@ pub fn write_jbrd(spec: &JpegSpec) -> Vec<u8> {
     for (i, t) in tables.iter().enumerate() {
         w.put(t.is_ac as u64, 1);
         w.put(t.id as u64, 2);
-        w.put((i == 3) as u64, 1); // one DHT segment
+        w.put((i == 3 || spec.dht_split) as u64, 1); // last table of its DHT segment
         // counts[0..17] by code length, with the sentinel symbol 256 added at the longest length
         let mut counts = [0u32; 17];
         for l in 1..=16 {
@@ -757,12 +1064,13 @@ pub fn write_jbrd(spec: &JpegSpec) -> Vec<u8> {
         w.u32([(0, 2), (4, 2), (8, 4), (1, 8)], 256);
     }
 
-    for comps in &spec.scans {
+    for (scan_idx, comps) in spec.scans.iter().enumerate() {
+        let (ss, se, ah, al) = spec.scan_param(scan_idx);
         w.put((comps.len() - 1) as u64, 2);
-        w.put(0, 6); // ss
-        w.put(63, 6); // se
-        w.put(0, 4); // al
-        w.put(0, 4); // ah
+        w.put(ss as u64, 6);
+        w.put(se as u64, 6);
+        w.put(al as u64, 4);
+        w.put(ah as u64, 4);
         for &c in comps {
             let tbl = if c == 0 { 0 } else { 1 };
             w.put(c as u64, 2);
@@ -771,11 +1079,25 @@ pub fn write_jbrd(spec: &JpegSpec) -> Vec<u8> {
         }
         w.put(0, 2); // last_needed_pass
     }
-    // no DRI
+    if spec.restart_interval != 0 {
+        w.put(spec.restart_interval as u64, 16);
+    }
     let cnt = [(0, 0), (1, 2), (4, 4), (20, 16)];
     let pos = [(0, 0), (1, 3), (9, 5), (41, 28)];
-    for ezr in &spec.extra_zero_runs {
-        w.u32(cnt, 0); // no reset points
+    let no_ezr = Vec::new();
+    for scan_idx in 0..spec.scans.len() {
+        let ezr = spec.extra_zero_runs.get(scan_idx).unwrap_or(&no_ezr);
+        let resets = &jpeg.reset_points[scan_idx];
+        w.u32(cnt, resets.len() as u32);
+        let mut last: Option<u32> = None;
+        for &idx in resets {
+            let delta = match last {
+                None => idx,
+                Some(l) => idx - l - 1,
+            };
+            w.u32(pos, delta);
+            last = Some(idx);
+        }
         w.u32(cnt, ezr.len() as u32);
         let mut last: Option<u32> = None;
         for &(idx, n) in ezr {
